@@ -26,6 +26,8 @@ def answerLineBody (line : String) : String :=
       | "heap" => BodyE.heap kv
       | "serde" => BodyE.serde kv
       | "seq" => SeqE.answerBody kv
+      | "chunks" => MemE.chunksBody kv
+      | "views" => MemE.viewsBody kv
       | _ => "n/a"
     s!"{seq} {body}"
   | _ => "bad-line"
